@@ -437,6 +437,13 @@ pub(crate) fn add_int_combination<W, R, T>(
             if k > n{
                 return xerr(ManagedXError::new("k cannot be greater than n", rt)?);
             }
+            if k == 0 {
+                // the only combination of no elements is the empty one
+                if i >= 1 {
+                    return xerr(ManagedXError::new("i too large", rt)?);
+                }
+                return Ok(manage_native!(XSequence::<W, R, T>::Empty, rt));
+            }
             let mut s_cutoff = binomial(n-1,k-1);
             let total = s_cutoff*n/k;
             if i >= total{
@@ -482,6 +489,13 @@ pub(crate) fn add_int_combination_with_replacement<W, R, T>(
 
             if k > n{
                 return xerr(ManagedXError::new("k cannot be greater than n", rt)?);
+            }
+            if k == 0 {
+                // the only combination of no elements is the empty one
+                if i >= 1 {
+                    return xerr(ManagedXError::new("i too large", rt)?);
+                }
+                return Ok(manage_native!(XSequence::<W, R, T>::Empty, rt));
             }
             let mut s_cutoff = binomial(n+k-2,k-1);
             let total = (s_cutoff*(n+k-1))/k;
